@@ -304,7 +304,7 @@ theorem greedy_forced : ∀ (is : List Item) (e : Bool) (ps : List Str) (tr : St
       | nil => exact absurd h (by simp [Forced])
       | cons x ps =>
         obtain ⟨⟨b, rfl, hb, hc⟩, hf⟩ := h
-        simp only [build, capsOf, List.append_assoc, List.cons_append, List.nil_append]
+        simp only [build, capsOf, List.cons_append, List.nil_append]
         rw [one_step c is e b _ hb hc]; exact ih e ps tr hf
     | rep c mn cap =>
       cases ps with
